@@ -422,6 +422,32 @@ def loadViewed (cfg : Cfg) (view : List Addr) (n : Node) : Except Err Node :=
   | .error e => .error e
   | .ok g => .ok (wipeView view g)
 
+/-! ## `child.load()` in place: a node that has a parent loads a saved state -/
+
+def replaceChild (cs : List Node) (l : Lbl) (n : Node) : List Node :=
+  cs.map fun c => if c.core.label = l then n else c
+
+/-- the child's OWN lists are those of its new, never connected channels; its neighbours' lists
+still name the old ones -/
+def clearChild (g : CG) (l : Lbl) : CG :=
+  ⟨fun a => if a.1 = l then [] else g.inl a, fun o => if o.1 = l then [] else g.outl o⟩
+
+/-- `parent.children[l].load()` of the file `child.save()` wrote.  `keepPlace = false`: the node adopts
+the stored state as it is — `_parent = None`, the detached path, fresh channels — while its parent
+keeps listing it and its neighbours stay connected to the discarded channels; `keepPlace = true`
+(fixes/C07-load-in-place-keeps-place.patch): parent kept, whatever was attached to the old channels is
+attached to the loaded ones. -/
+def loadInPlace (cfg : Cfg) (keepPlace : Bool) (pp : Option Path) : Node → Lbl → Except Err Node
+  | .mk c ch dg sg, l =>
+    match ch.find? fun x => x.core.label = l with
+    | none => .error .key
+    | some child =>
+      match fileLoad cfg child.core.cls (save (some (lexPath (c.forState pp).detached c.label)) child) with
+      | .error e => .error e
+      | .ok loaded =>
+        if keepPlace then .ok (.mk c (replaceChild ch l loaded.adopt) dg sg)
+        else .ok (.mk c (replaceChild ch l loaded) (clearChild dg l) (clearChild sg l))
+
 mutual
 /-- can the graph be pickled at all?  `For._input_value_links` reads `c.value_receiver.owner` of EVERY
 input; an input whose link is gone (see `wipeView`) makes `__getstate__` raise (`Macro` skips such inputs) -/
